@@ -1,6 +1,8 @@
 package chainprops
 
 import (
+	"fmt"
+	"os"
 	"testing"
 
 	"pgregory.net/rapid"
@@ -20,9 +22,80 @@ func TestC37(t *testing.T) {
 	rapid.Check(t, func(rt *rapid.T) {
 		w := chain.NewWorld(rt, t, chain.Cfg{RichSpec: true, RichPolicy: true, Geo: true, Contrib: true})
 		acts := fullAlphabet(w, chain.RelayOpts{SessionPool: 6, PastEpochs: true, Qos: true, QosExcellence: true, Unresponsive: true, AnyProvider: true})
+		reported := map[string]bool{}
+		prevState := ""
 		acts[""] = func(rt *rapid.T) {
+			if os.Getenv("VERIF_LOGS") != "" {
+				ks := w.C.TS.Keepers
+				cur := ""
+				for _, p := range w.Providers {
+					md, err := ks.Epochstorage.GetMetadata(w.C.TS.Ctx, p.Addr())
+					if err != nil {
+						continue
+					}
+					cur += fmt.Sprintf("\n   %s vault=%s totalDeleg=%s", p.Name, md.Vault[len(md.Vault)-6:], md.TotalDelegations.Amount)
+					for _, ch := range md.Chains {
+						e, _ := ks.Epochstorage.GetStakeEntryCurrent(w.C.TS.Ctx, ch, p.Addr())
+						cur += fmt.Sprintf(" %s:stake=%s,deleg=%s,frozen=%v", ch, e.Stake.Amount, e.DelegateTotal.Amount, e.IsFrozen())
+					}
+					dels, _ := ks.Dualstaking.GetProviderDelegators(w.C.TS.Ctx, p.Addr())
+					for _, d := range dels {
+						cur += fmt.Sprintf(" [%s=%s]", d.Delegator[len(d.Delegator)-6:], d.Amount.Amount)
+					}
+				}
+				for _, a := range w.Keys {
+					vd := ks.StakingKeeper.GetDelegatorDelegations(w.C.TS.Ctx, a.Addr, 100)
+					if len(vd) == 0 {
+						continue
+					}
+					cur += fmt.Sprintf("\n   valdeleg %s:", a.Addr.String()[len(a.Addr.String())-6:])
+					for _, d := range vd {
+						v, _ := ks.StakingKeeper.GetValidator(w.C.TS.Ctx, d.GetValidatorAddr())
+						cur += fmt.Sprintf(" %s", v.TokensFromShares(d.Shares))
+					}
+				}
+				defer func(c string) { prevState = c }(cur)
+				for _, p := range w.Providers {
+					md, err := ks.Epochstorage.GetMetadata(w.C.TS.Ctx, p.Addr())
+					if err != nil || reported[p.Name] {
+						continue
+					}
+					dels, _ := ks.Dualstaking.GetProviderDelegators(w.C.TS.Ctx, p.Addr())
+					has := false
+					sum := int64(0)
+					for _, ch := range md.Chains {
+						e, _ := ks.Epochstorage.GetStakeEntryCurrent(w.C.TS.Ctx, ch, p.Addr())
+						sum += e.Stake.Amount.Int64()
+					}
+					for _, d := range dels {
+						if d.Delegator == md.Vault {
+							has = d.Amount.Amount.Int64() == sum
+						}
+					}
+					if !has {
+						reported[p.Name] = true
+						fmt.Printf("VERIF-DEBUG first state without vault delegation: %s chains=%v after: %v\n  state before:%s\n  state after:%s\n", p.Name, md.Chains, w.C.HistTail(4), prevState, cur)
+					}
+				}
+			}
 			c.Clause("no-halt")
 			if w.C.Halt != "" {
+				if os.Getenv("VERIF_LOGS") != "" {
+					ks := w.C.TS.Keepers
+					for _, p := range w.Providers {
+						md, err := ks.Epochstorage.GetMetadata(w.C.TS.Ctx, p.Addr())
+						dels, _ := ks.Dualstaking.GetProviderDelegators(w.C.TS.Ctx, p.Addr())
+						hasVault := false
+						summary := ""
+						for _, d := range dels {
+							if d.Delegator == md.Vault {
+								hasVault = true
+							}
+							summary += fmt.Sprintf(" %s=%s", d.Delegator[len(d.Delegator)-6:], d.Amount.Amount)
+						}
+						fmt.Printf("VERIF-DEBUG provider %s mdErr=%v chains=%v vault=%s vaultDelegationPresent=%v delegations:%s\n", p.Name, err, md.Chains, md.Vault[len(md.Vault)-6:], hasVault, summary)
+					}
+				}
 				rt.Fatalf("%s", ev.Violation("C37", "chain halted: %s\nhistory (tail):\n  %s", w.C.Halt, histString(w, 60)))
 			}
 		}
